@@ -3,7 +3,7 @@
 // read-size pattern of the reader is an explored environment choice.  Reference observation = eager
 // memory_input.  With a buffer that is too small the only permitted deviation is std::overflow_error.
 #define VERIF_K 5
-#define VERIF_GROUPS ( T::G_CORE | T::G_CORE3 | T::G_ATOM2 | T::G_MUST | T::G_RAW )
+#define VERIF_GROUPS ( T::G_CORE | T::G_CORE3 | T::G_ATOM2 | T::G_MUST | T::G_RAW | T::G_POS )
 #define VERIF_FAMS 1
 #define VERIF_CTLS 1
 #include "../engine/pipeline.hpp"
@@ -138,6 +138,17 @@ struct XReader
 
 static R::Interp RI;
 static std::string scratch;
+static std::string g_ctx_input, g_ctx_wrapper;
+static const char* g_ctx_cls = "";
+// an exception that cannot reach the caller of parse() (thrown through a noexcept rule) ends in std::terminate
+static void on_terminate()
+{
+   vf::violation( std::string( "C07|std::terminate during the parsing run: an exception did not propagate to the caller of parse()|" ) + g_ctx_cls, "\"table\":\"" + vf::jesc( show_tab( 5 ) ) + "\",\"wrapper\":\"" + g_ctx_wrapper + "\",\"input\":\"" + vf::jesc( vf::show( g_ctx_input ) ) + "\",\"choices\":\"" + X.str() + "\"", ser_tab( 5 ) + "|" + vf::hex( g_ctx_input ) + "|" + g_ctx_cls + "|" + X.str() );
+   vf::st.exhaustive = false;
+   vf::st.note = "aborted by std::terminate inside the library; remaining executions of this shard not explored";
+   vf::finish();
+   _exit( 0 );
+}
 static long n_divergent = 0;
 
 static std::string file_for( const std::string& s )
@@ -157,6 +168,9 @@ static void buffer_runs( const char* cls, std::size_t maximum, bool overflow_all
 {
    std::vector< int > pre;
    X.bound = bound;
+   g_ctx_cls = cls;
+   g_ctx_input = input;
+   g_ctx_wrapper = wrapper;
    for( ;; ) {
       X.begin( pre );
       p::buffer_input< XReader, p::eol::lf_crlf, std::string, Chunk > in( "src", maximum, input.data(), input.size() );
@@ -186,16 +200,31 @@ int main( int argc, char** argv )
    mkdir( "build/scratch", 0777 );
    mkdir( scratch.c_str(), 0777 );
 
+   std::set_terminate( on_terminate );
    struct Round
    {
       std::string sigma;
       int L;
       std::vector< const char* > root, inner;
+      std::vector< std::string > fixed_inputs = {};  // instead of all strings over sigma
    };
+   // byte-class round: NUL bytes, multi-byte UTF-8 sequences (complete and truncated) and case-insensitive strings at every
+   // offset relative to the buffer boundaries
+   std::vector< std::string > bc_inputs;
+   {
+      const std::vector< std::string > pre = { "", "a", std::string( 1, '\0' ), "aa", std::string( "a\0", 2 ), std::string( "\0a", 2 ), std::string( 2, '\0' ) };
+      const std::vector< std::string > mid = { "", "\xF0\x90\x80\x80", "\xF0\x90\x80", "\xC3\xA9", "\xE2\x82\xAC", "ab", "aB", "AB" };
+      for( const auto& a : pre )
+         for( const auto& m : mid )
+            for( const char* z : { "", "a" } ) bc_inputs.push_back( a + m + z );
+      std::sort( bc_inputs.begin(), bc_inputs.end() );
+      bc_inputs.erase( std::unique( bc_inputs.begin(), bc_inputs.end() ), bc_inputs.end() );
+   }
    const std::vector< Round > rounds = {
       { "a\r\nb", thorough ? 5 : 4, { "ANY", "ONE_A", "STRING_AB", "EOL", "BYTES2", "REQUIRE2", "STAR", "PLUS", "OPT", "AT", "NOT_AT", "SEQ", "SOR", "MUST" }, { "ANY", "ONE_A", "STRING_AB", "EOF_", "EOL", "BYTES2", "REQUIRE2", "SUCCESS", "FAILURE", "STAR", "PLUS", "OPT", "AT", "NOT_AT", "SEQ", "SOR", "MUST" } },
       // hand-written multi-byte look-ahead of raw_string (opening bracket, closing bracket) across buffer refills
       { "[=]x", thorough ? 7 : 6, { "RAW", "SEQ", "SOR", "OPT" }, { "RAW", "ANY", "EOF_" } },
+      { "bytes", 0, { "UTF8_ANY", "ISTRING_AB", "SEQ", "SOR", "STAR", "PLUS", "OPT" }, { "UTF8_ANY", "ISTRING_AB", "ANY", "ONE_A", "EOF_" }, bc_inputs },
    };
    auto ops = []( std::vector< const char* > v ) { std::vector< int > r; for( auto n : v ) r.push_back( op_by_name( n ) ); return r; };
    std::vector< std::string > all_files;
@@ -203,7 +232,10 @@ int main( int argc, char** argv )
    const std::string sigma = round.sigma;
    const int L = round.L;
    std::vector< std::string > inputs;
-   for_inputs( sigma, L, [ & ]( const std::string& s ) { inputs.push_back( s ); } );
+   if( round.fixed_inputs.empty() )
+      for_inputs( sigma, L, [ & ]( const std::string& s ) { inputs.push_back( s ); } );
+   else
+      inputs = round.fixed_inputs;
    // files for the file based inputs, once per input string
    for( const auto& s : inputs ) {
       std::ofstream f( file_for( s ), std::ios::binary );
@@ -218,7 +250,7 @@ int main( int argc, char** argv )
    pe.run( [ & ]( int n ) {
       if( ( prog_index++ % vf::args.nshards ) != vf::args.shard ) return;
       if( vf::out_of_time() ) return;
-      vf::count( round.sigma == "[=]x" ? "programs_raw_string_round" : "programs_main_round" );
+      vf::count( round.sigma == "[=]x" ? "programs_raw_string_round" : round.sigma == "bytes" ? "programs_byte_class_round" : "programs_main_round" );
       // relocate the program to rules 3,4
       Entry prog[ 2 ] = { tab[ 0 ], tab[ 1 ] };
       for( int i = 0; i < 2; ++i ) {
@@ -277,6 +309,9 @@ int main( int argc, char** argv )
             }
             ++vf::st.evaluations;
             if( ref.kind == 4 ) continue;
+            g_ctx_input = s;
+            g_ctx_wrapper = wname;
+            g_ctx_cls = "memory / file / stream input";
             auto cmp = [ & ]( const char* cls, const Obs& o ) {
                ++vf::st.evaluations;
                X.begin( {} );
@@ -290,7 +325,7 @@ int main( int argc, char** argv )
                p::string_input<> in( s, "src" );
                cmp( "string_input", observe( in ) );
             }
-            {
+            if( s.find( '\0' ) == std::string::npos ) {  // argv strings end at the first NUL by definition
                std::string z = s;  // NUL terminated copy
                char* av[ 2 ] = { nullptr, z.data() };
                p::argv_input<> in( av, 1, "src" );
